@@ -851,7 +851,7 @@ func init() {
 	register(&Check{
 		ID: "C07", Level: "fault_enumeration", MinNontriv: 40,
 		Anchors: []string{"pkg/adaptation/plugin.go", "pkg/adaptation/adaptation.go", "pkg/net/multiplex/mux.go"},
-		Rule:    "fault list against a real Adaptation with 2-5 plugins of which one or two are raw protocol peers behind the cut-wrapper: kind {peer closed before / on receipt / right after replying, connection cut after k bytes of the request or of the response (quick: header/frame boundaries plus a stride of 7; thorough: every k in 0..130), handler hanging past the 500 ms request timeout, malformed ttRPC frame, absurd frame length, mux frame for an unknown connection id, 1 MiB request with the peer stalling after k bytes, peer that stops reading and floods the runtime service, handler error} x position {first, middle, last} x request type {create, update, stop, update-pod, state change}, pairs of faulty plugins, each followed by two healthy requests; schedule-sensitive cases repeated and run under several CPU settings; oracles: transport fault => success with exactly the survivors' contributions (failed plugin's all-or-nothing), latency (slow/hang rule 15 s + 1 s), survivors invoked exactly once, failed plugin served no further; handler error => that error, no result, no later plugin; process liveness; distinct = distinct (fault, position, request, offset) points",
+		Rule:    "fault list against a real Adaptation with 2-5 plugins of which one or two are raw protocol peers behind the cut-wrapper: kind {peer closed before / on receipt / right after replying, connection cut after k bytes of the request or of the response (quick: header/frame boundaries plus a stride of 7; thorough: every k in 0..130), handler hanging past the 500 ms request timeout, malformed ttRPC frame, absurd frame length, mux frame for an unknown connection id, 1 MiB request with the peer stalling after k bytes, peer that stops reading and floods the runtime service, handler error} x position {first, middle, last} x request type {create, update, stop, update-pod, state change}, pairs of faulty plugins, each followed by two healthy requests; schedule-sensitive cases repeated and run under several CPU settings; oracles: transport fault => success with exactly the survivors' contributions (failed plugin's all-or-nothing), latency (slow/hang rule 15 s + 1 s), survivors invoked exactly once, failed plugin served no further; handler error => that error, no result, no later plugin; process liveness; plus three stub-based plugins of which the middle one vetoes each of the thirteen request kinds in turn; distinct = distinct (fault, position, request, offset) points",
 		Assumptions: []string{
 			"a cut of the runtime-to-plugin direction is applied at the peer's end of the real unix socket (NRI accepts its own connections); genuine partial writes on NRI's side are forced with 1 MiB requests",
 			"a length field above 256 MiB is not injected (resource question no property states)",
